@@ -21,9 +21,9 @@ TEXTS = {
         "technique": "stateful property-based testing (proptest op sequences + interpreter)",
     },
     "C06": {
-        "level": "Grammar-based generated-input search: DeriveInput source text (every data shape, generics, #[darling] bodies from option lists with valid and invalid values to arbitrary token trees) fed to all six derive functions under catch_unwind; oracle: the output is items, exactly one impl of the requested trait XOR >=1 compile_error!. Quick 6*10^4 items (3.6*10^5 derive calls); thorough 3.2*10^6 items.",
+        "level": "Grammar-based generated-input search: DeriveInput source text (every data shape, generics, #[darling] bodies from option lists with valid and invalid values to arbitrary token trees) fed to all six derive functions under catch_unwind; oracle: the output is items, exactly one impl of the requested trait XOR >=1 compile_error!. Quick 6*10^4 items (3.6*10^5 derive calls); thorough 3.2*10^6 items. A second step expands generated items with the real proc macros under rustc (400 quick, 12 000 thorough): no diagnostic may say that a derive panicked.",
         "ref": "DESIGN.md section 3 C06",
-        "note": "Drives darling_core::derive::* in-process (what macro/src/lib.rs calls after parse_macro_input!); a panic is observed through a panic hook.",
+        "note": "Drives darling_core::derive::* in-process (what macro/src/lib.rs calls after parse_macro_input!); a panic is observed through a panic hook. The rustc step observes a panic as the compiler's 'proc-macro derive panicked' diagnostic (proc_macro::Span differs from proc-macro2's fallback: join, hygiene).",
         "technique": "grammar-based property testing (proptest bytes -> structured decoder), totality oracle",
     },
     "C10": {
